@@ -25,6 +25,9 @@ pub struct SimClock {
     pub offset: i32,
     pub leap_reads: u32,
     pub stall_reads: u32,
+    /// (n, new offset): after n more readings the UTC offset changes (a DST
+    /// switch that falls between two readings of one call)
+    pub offset_switch: Option<(u32, i32)>,
     /// Ticks applied after successive readings of the current operation (cyclic).
     pub ticks: [u64; 3],
     pub tick_idx: usize,
@@ -65,6 +68,7 @@ impl SimClock {
             offset,
             leap_reads: 0,
             stall_reads: 0,
+            offset_switch: None,
             ticks: [0; 3],
             tick_idx: 0,
             readings: Vec::new(),
@@ -117,6 +121,14 @@ impl SimClock {
         self.pending_fault = 0;
         if self.leap_reads > 0 {
             self.leap_reads -= 1;
+        }
+        if let Some((n, off)) = self.offset_switch {
+            if n <= 1 {
+                self.offset = off;
+                self.offset_switch = None;
+            } else {
+                self.offset_switch = Some((n - 1, off));
+            }
         }
         if self.stall_reads > 0 {
             self.stall_reads -= 1;
